@@ -143,4 +143,11 @@ PROPS = {
         "level_text": "Theorems at device / memory-access level for all states (Props/C33.lean): with the lock free a KBDR read consumes exactly the front byte and returns it, a DDR store appends exactly one byte; with the lock held at a KBSR/DSR poll the device reads not-ready and nothing changes (the OS routines poll again); with the lock held at the KBDR read or DDR store the read answers nothing (the load returns the stale mirror word, byte stays queued) and the store is refused (byte lost) - the mechanism of finding F19. Correspondence: echo programs under exhaustive 16-bit denial patterns over the first device accesses and random per-step patterns, the harness holding the real RwLock write guards; every step compared with the model; oracle: display = input exactly once in order; failures with a denied KBDR read/DDR store are the known finding, any other failure is a violation.",
         "level_note": BASE_NOTE + "Real thread interleavings are represented by the per-step lock oracle only. F19 is listed in known_findings.json (status open).",
     },
+    "C25": {
+        "sub": "c25", "functional": True,
+        "status": "partial: line count, newline-table invariants, position pair within the text and past the end (fix F15), existence and containment of line spans are theorems; the trimmed-text equality of line spans is checked by the oracle on every generated string",
+        "assumptions": ["F15 repaired in /repo (fix: commit e0f1484)", "char::is_whitespace = the 25 White_Space code points listed in Model/Source.lean"],
+        "level_text": "Theorems for every text (Props/C25.lean, positions = UTF-8 byte offsets): count_lines = number of newlines + 1; the newline table is strictly increasing and bounded by the length; for an index within the text get_pos_pair returns (l, c) with lineStart l + c = index and l = number of newlines strictly before the index; for an index past the end the line is the last line and the column is measured from its start; line_span is defined exactly for lines below the count and lies within the raw line. Correspondence + oracle: all strings up to length 4 (thorough 6) over {a, space, LF, CR} and random strings over an alphabet rich in LF/CRLF/CR/tab/NBSP/U+2028/multi-byte letters; every line index up to lines+2 and every byte index up to len+10 compared with the model and with answers recomputed from split/trim.",
+        "level_note": BASE_NOTE,
+    },
 }
